@@ -502,6 +502,22 @@ fn bytes_to_hex_string(bytes: &[u8]) -> String {
     format!("0x{}", hex::encode(bytes))
 }
 
+#[cfg(feature = "arbitrary-precision-json")]
+fn big_negative_to_json_number(x: i128) -> Result<serde_json::Value, JsError> {
+    use std::str::FromStr;
+    serde_json::Number::from_str(&x.to_string())
+        .map(serde_json::Value::Number)
+        .map_err(|e| JsError::from_str(&e.to_string()))
+}
+
+#[cfg(not(feature = "arbitrary-precision-json"))]
+fn big_negative_to_json_number(x: i128) -> Result<serde_json::Value, JsError> {
+    Err(JsError::from_str(&format!(
+        "{} does not fit a JSON number without arbitrary precision",
+        x
+    )))
+}
+
 // Converts JSON to Metadata according to MetadataJsonSchema
 #[wasm_bindgen]
 pub fn encode_json_str_to_metadatum(
@@ -524,6 +540,9 @@ pub fn encode_json_value_to_metadatum(
             Ok(TransactionMetadatum::new_int(&Int::new_negative(
                 &x.unsigned_abs().into(),
             )))
+        } else if let Ok(int) = Int::from_str(&x.to_string()) {
+            // an integer below i64::MIN (arbitrary-precision numbers keep its digits)
+            Ok(TransactionMetadatum::new_int(&int))
         } else {
             Err(JsError::from_str("floats not allowed in metadata"))
         }
@@ -655,12 +674,8 @@ pub fn decode_metadatum_to_json_value(
                 Ok(bytes_to_hex_string(b.as_ref()))
             }
             TransactionMetadatumEnum::Int(i) if schema != MetadataJsonSchema::NoConversions => {
-                let int_str = if i.0 >= 0 {
-                    u64::try_from(i.0).map(|x| x.to_string())
-                } else {
-                    i64::try_from(i.0).map(|x| x.to_string())
-                };
-                int_str.map_err(|e| JsError::from_str(&e.to_string()))
+                // a key is text: every integer a metadatum can hold has a decimal form
+                Ok(i.0.to_string())
             }
             TransactionMetadatumEnum::MetadataList(list)
                 if schema == MetadataJsonSchema::DetailedSchema =>
@@ -724,8 +739,11 @@ pub fn decode_metadatum_to_json_value(
             "int",
             if x.0 >= 0 {
                 Value::from(u64::try_from(x.0).map_err(|e| JsError::from_str(&e.to_string()))?)
+            } else if let Ok(v) = i64::try_from(x.0) {
+                Value::from(v)
             } else {
-                Value::from(i64::try_from(x.0).map_err(|e| JsError::from_str(&e.to_string()))?)
+                // below i64::MIN: exact with arbitrary-precision numbers, an error without them
+                big_negative_to_json_number(x.0)?
             },
         ),
         TransactionMetadatumEnum::Bytes(bytes) => (
